@@ -182,6 +182,31 @@ def empty(p):
             p.req('DELETE', '/resource_providers/' + u, version='1.39')
 
 
+def check_subtrees(p, names):
+    """A-subtree, bounded: on the current table ResourceProvider.get_subtree
+    returns exactly the descendants (self included), each once"""
+    from placement import context as pctx
+    from placement.objects import resource_provider as rp_obj
+    rs = [dict(zip(names, r)) for r in rows(p)]
+    by_id = {r['id']: r for r in rs}
+    kids = {}
+    for r in rs:
+        kids.setdefault(r['parent_provider_id'], []).append(r['id'])
+    ctx = pctx.RequestContext(config=p.conf)
+    for r in rs:
+        want, stack = set(), [r['id']]
+        while stack:
+            x = stack.pop()
+            want.add(x)
+            stack.extend(kids.get(x, []))
+        got = [x.id for x in rp_obj.ResourceProvider.get_by_uuid(
+            ctx, r['uuid']).get_subtree(ctx)]
+        if sorted(got) != sorted(want):
+            return ('get_subtree of %s returns ids %s, its descendants are %s'
+                    % (r['uuid'], sorted(got), sorted(want)))
+    return None
+
+
 def search(model=None, tier='quick', seed=1):
     n_hist, n_steps = (40, 25) if tier == 'quick' else (400, 40)
     rnd = random.Random(seed)
@@ -200,6 +225,10 @@ def search(model=None, tier='quick', seed=1):
                     if bad:
                         return {'reproduced': True, 'tried': tried, 'witness': {
                             'history': hist, 'observed': bad}}
+                bad = check_subtrees(p, names)
+                if bad:
+                    return {'reproduced': True, 'tried': tried, 'witness': {
+                        'history': hist, 'observed': bad}}
         for h in range(n_hist):
             minor = rnd.choice([13, 14, 36, 37, 39, 39])
             empty(p)
@@ -212,6 +241,11 @@ def search(model=None, tier='quick', seed=1):
                 if bad:
                     return {'reproduced': True, 'tried': tried, 'witness': {
                         'history': hist, 'observed': bad}}
+                if s % 5 == 4:
+                    bad = check_subtrees(p, names)
+                    if bad:
+                        return {'reproduced': True, 'tried': tried, 'witness': {
+                            'history': hist, 'observed': bad}}
     return {'reproduced': False, 'tried': tried}
 
 
